@@ -43,7 +43,7 @@ theorem new_unusable (inp : Nat → Value) (parent : String) (hasParent : Bool) 
 set_option maxRecDepth 8000 in
 set_option maxHeartbeats 8000000 in
 /-- a usable segment whose file is at least as long as the segment: map, store the version -/
-theorem new_usable_long (inp : Nat → Value) (parent : String) (fd : Nat) (len : Nat) (hlen : 72 ≤ len) (hlen2 : len < 18446744073709551616)
+theorem new_usable_long (inp : Nat → Value) (parent : String) (fd : Nat) (len : Nat) (hlen : 72 ≤ len)
     (evs : List Value) (k : Nat)
     (husable : ∀ N env lg, callKnown (N + 120) (nctx inp) Code.fn_ShmWriter__is_usable_segment
         [.ext "Path" [.str "shm", .str parent]] { env := env, log := lg, pos := 0 }
